@@ -472,7 +472,7 @@ fn explore(ctx: &Ctx, rep: &mut Report) {
     check_bytes(rep);
 
     // the select kernels are the same code in every feature build; the widest space runs once, in the default build
-    let maxpop = if q { 4 } else if cfg!(any(feature = "simd", feature = "portable-popcount")) { 4 } else { 5 };
+    let maxpop = if q { 3 } else if cfg!(any(feature = "simd", feature = "portable-popcount")) { 4 } else { 5 };
     run_words(ctx, rep, "words/low-popcount", words_lowpop(maxpop), &format!("all words with popcount <= {maxpop} and their complements"));
     let bgs16: &[u16] = if q { &[0, 0xFFFF, 0xAAAA] } else { &[0, 0xFFFF, 0xAAAA, 0x5555, 0x00FF, 0x8001] };
     run_words(
@@ -489,7 +489,7 @@ fn explore(ctx: &Ctx, rep: &mut Report) {
         words_bytes(&[0, u64::MAX, 0xAAAA_AAAA_AAAA_AAAA, 0x5555_5555_5555_5555, 0x0101_0101_0101_0101, 0x8080_8080_8080_8080, 0x0F0F_0F0F_0F0F_0F0F]),
         "every byte value in each of 8 byte lanes over 7 backgrounds",
     );
-    let maxruns = 5;
+    let maxruns = ctx.pick(4, 5);
     run_words(ctx, rep, "words/runs", words_runs(maxruns), &format!("all words made of <= {maxruns} runs of equal bits"));
 
     let mut blocks = blocks_bytes();
